@@ -8,9 +8,11 @@ import ICal.Driver.CDict
 import ICal.Driver.Walk
 import ICal.Driver.Tz
 import ICal.Driver.Alarm
+import ICal.Driver.Recur
+import ICal.Driver.Encode
 open ICal.Driver
 
-def handlers : List (String → List String → Option String) := [handleText, handleFold, handleLine, handleTree, handleStartEnd, handleCodec, handleCDict, handleWalk, handleTz, handleAlarm]
+def handlers : List (String → List String → Option String) := [handleText, handleFold, handleLine, handleTree, handleStartEnd, handleCodec, handleCDict, handleWalk, handleTz, handleAlarm, handleRecur, handleEncode]
 
 def step (line : String) : String :=
   let l := line.dropRightWhile (fun c => c == (Char.ofNat 10) || c == (Char.ofNat 13))
